@@ -1894,6 +1894,11 @@ func (bc *Blockchain) AddBlock(block *block.Block) error {
 				bc.log.Warn(fmt.Sprintf("transaction %s failed to verify: %s", tx.Hash().StringLE(), err))
 			}
 		}
+		// A transaction can silently evict the previous ones from the pool
+		// (Conflicts attribute, oracle response with the same ID).
+		if bc.config.VerifyTransactions && mp.Count() != len(block.Transactions) {
+			return errors.New("invalid block: conflicting transactions")
+		}
 	}
 	return bc.storeBlock(block, mp)
 }
